@@ -90,6 +90,12 @@ def make_case(rng, tier, idx):
                 effs.append(["DP", rng.choice(DP_EXPRS), rng.randrange(npt)])
             else:
                 effs.append(["DS", rng.choice(DS_EXPRS), npt + rng.randrange(nst)])
+        # a later action repeats an effect declared for an earlier one (the user keeps `keep = src >> target` in a
+        # variable and passes the same object to several ifmax calls: build_block re-uses the object)
+        if i > 0 and rng.random() < 0.3:
+            prev = [e for a_ in actions for e in a_["effects"]]
+            if prev:
+                effs.append(list(rng.choice(prev)))
         actions.append({"name": rng.choice([None, None, "act%d" % i, "a"]),
                         "util": rng.choice(UTILS),
                         "extra": rng.choice([None, None, 0.25, -0.5]),
@@ -146,8 +152,16 @@ def build_block(case, sim=None):
             for i, a in enumerate(case["actions"]):
                 effs = []
                 for kind, expr, t in a["effects"]:
-                    src = expr if kind == "FS" else eval(expr, dict(ns))
-                    effs.append(src >> targets[t])
+                    key_ = (kind, str(expr), t)
+                    routes, used_here = B.setdefault("routes", {}), B.setdefault("used_here", [])
+                    if key_ in routes and key_ not in used_here:
+                        effs.append(routes[key_])               # the SAME routing object as in an earlier action
+                    else:
+                        src = expr if kind == "FS" else eval(expr, dict(ns))
+                        routes[key_] = src >> targets[t]
+                        effs.append(routes[key_])
+                    used_here.append(key_)
+                B["used_here"] = []
                 if sim is not None:
                     sched = sim["schedule"]
                     node = nengo.Node(lambda t, i=i: sched[min(int(t / sim["phase"]), len(sched) - 1)][i],
